@@ -3,6 +3,8 @@ package rules
 import (
 	"fmt"
 	"go/token"
+	"go/types"
+	"strings"
 
 	"golang.org/x/tools/go/ssa"
 
@@ -182,4 +184,114 @@ func c16EOFAfterDrain(c *Ctx) {
 		c.Check(drained(r, 0), "eof-after-drain", fmt.Sprintf("Read returns io.EOF #%d", n), p.InstrPos(r), "only after the receive buffer was found empty", "agentConnection.Read reports io.EOF without first having found its receive buffer empty: bytes the agent relayed before its EOF (or before it disconnected) that the service has not read yet are dropped – the stream the service sees is cut short")
 	}
 	c.Floor("eof-after-drain", 1, "the closed-channel arm of agentConnection.Read")
+}
+
+// c16CloseOnce: a virtual connection is closed from two sides – by the service that handled it and by the session loop
+// when the agent reports the end of the connection. "Ends exactly the affected connection" needs the close to happen
+// once: closing the channel twice panics, and in the session loop that panic tears down every other connection of the
+// agent. Every close() of a channel field in the agent connection is therefore guarded by a "closed already" flag that is
+// read, set and followed by the close inside ONE critical section: the same Lock acquisition protects the read of the
+// flag that guards the close, and the close itself. A check made under the lock, the lock released, and the close done
+// under a later acquisition lets both sides pass the check.
+func c16CloseOnce(c *Ctx) {
+	p := c.P
+	const rule = "close-once"
+	locksAt := func(fn *ssa.Function, at ssa.Instruction) map[ssa.Instruction]bool {
+		out := map[ssa.Instruction]bool{}
+		for _, call := range Calls(fn) {
+			f := call.Common().StaticCallee()
+			if f == nil || f.Name() != "Lock" || PkgOf(f) != "sync" {
+				continue
+			}
+			if _, isDefer := call.(*ssa.Defer); isDefer {
+				continue
+			}
+			if !(call.Block() == at.Block() && before(call, at)) && !(call.Block() != at.Block() && call.Block().Dominates(at.Block())) {
+				continue
+			}
+			mu := Render(call.Common().Args[0])
+			released := false
+			for _, c2 := range Calls(fn) {
+				f2 := c2.Common().StaticCallee()
+				if _, isDefer := c2.(*ssa.Defer); isDefer || f2 == nil || f2.Name() != "Unlock" || PkgOf(f2) != "sync" || Render(c2.Common().Args[0]) != mu {
+					continue
+				}
+				if before(call, c2) && before(c2, at) {
+					released = true
+				}
+			}
+			if !released {
+				out[call] = true
+			}
+		}
+		return out
+	}
+	n := 0
+	for _, fn := range p.FuncsIn("listener/agent") {
+		if fn.Blocks == nil || strings.HasSuffix(p.Fset.Position(fn.Pos()).Filename, "_test.go") {
+			continue
+		}
+		for _, call := range Calls(fn) {
+			bi, ok := call.Common().Value.(*ssa.Builtin)
+			if !ok || bi.Name() != "close" || len(call.Common().Args) != 1 {
+				continue
+			}
+			ld, ok := call.Common().Args[0].(*ssa.UnOp)
+			if !ok {
+				continue
+			}
+			fa, ok := ld.X.(*ssa.FieldAddr)
+			if !ok || len(fn.Params) == 0 || fa.X != ssa.Value(fn.Params[0]) {
+				continue
+			}
+			n++
+			key := fmt.Sprintf("%s closes %s", shortFn(fn), fieldNameOf(fa))
+			atClose := locksAt(fn, call)
+			good := false
+			why := "the close is not under a \"closed already\" flag of the connection"
+			for _, dc := range DomConds(call) {
+				atom, pol0 := condAtom(dc.V)
+				fl, isLd := atom.(*ssa.UnOp)
+				if !isLd || fl.Op != token.MUL || pol0 == dc.Pol {
+					continue // not `!flag`
+				}
+				ffa, isFA := fl.X.(*ssa.FieldAddr)
+				if !isFA || ffa.X != ssa.Value(fn.Params[0]) {
+					continue
+				}
+				if bt, isB := fl.Type().Underlying().(*types.Basic); !isB || bt.Kind() != types.Bool {
+					continue
+				}
+				why = "the flag " + fieldNameOf(ffa) + " is read and the channel closed under different acquisitions of the lock (or without one)"
+				for l := range locksAt(fn, fl) {
+					if atClose[l] {
+						good = true
+					}
+				}
+				// the flag is set in the same section
+				if good {
+					set := false
+					for _, b := range fn.Blocks {
+						for _, in := range b.Instrs {
+							if st, isSt := in.(*ssa.Store); isSt {
+								if sfa, isF := st.Addr.(*ssa.FieldAddr); isF && sfa.X == ssa.Value(fn.Params[0]) && sfa.Field == ffa.Field {
+									for l := range locksAt(fn, st) {
+										if atClose[l] {
+											set = true
+										}
+									}
+								}
+							}
+						}
+					}
+					if !set {
+						good = false
+						why = "the flag " + fieldNameOf(ffa) + " is not set in the critical section that closes the channel"
+					}
+				}
+			}
+			c.Check(good, rule, key, p.InstrPos(call), "flag read, flag set and close inside one critical section", why+": the service's Close and the session loop's handling of the agent's EOF can both get past the check; the second close panics (\"close of closed channel\"), and in the session loop that ends the whole agent session – every other connection of the agent with it")
+		}
+	}
+	c.Floor(rule, 1, "agentConnection.Close")
 }
